@@ -27,16 +27,27 @@ NameViols(kind, n) ==
 
 \* ---- directive uses ------------------------------------------------------
 \* does value v fit scalar/enum/input type t (only what directive arguments in the universes need)
+\* (lists member by member; input objects field by field: only declared fields, and every field that is left out has a
+\* default or may be null)
+RECURSIVE Coercible(_, _, _)
 Coercible(s, t, v) ==
   IF v.k = "null" THEN t.k # "nonnull"
-  ELSE LET b == BaseName(t) IN
-       CASE v.k = "list" -> t.k = "list" \/ (t.k = "nonnull" /\ t.of.k = "list")
+  ELSE IF t.k = "nonnull" THEN Coercible(s, t.of, v)
+  ELSE IF t.k = "list" THEN (IF v.k = "list" THEN \A i \in DOMAIN v.v : Coercible(s, t.of, v.v[i]) ELSE Coercible(s, t.of, v))
+  ELSE LET b == t.n IN
+       CASE v.k = "list" -> FALSE
          [] b = "Int" -> v.k = "int"
          [] b = "String" -> v.k = "str"
          [] b = "Boolean" -> v.k = "bool"
          [] b = "ID" -> v.k \in {"str", "int"}
          [] b \in {"Float", "Float64"} -> v.k \in {"int", "num"}
          [] KindOfT(s, b) = "ENUM" -> v.k = "enum" /\ v.v \in NameSet(s.types[b].values)
+         [] KindOfT(s, b) = "INPUT_OBJECT" ->
+              LET fs == s.types[b].infields IN
+              /\ v.k = "obj"
+              /\ DOMAIN v.v \subseteq NameSet(fs)
+              /\ \A i \in DOMAIN fs : IF fs[i].n \in DOMAIN v.v THEN Coercible(s, fs[i].type, v.v[fs[i].n])
+                                        ELSE fs[i].hasDef \/ fs[i].type.k # "nonnull"
          [] OTHER -> TRUE
 
 \* deviation DirArgErrorUnnamed: the error for an uncoercible directive argument (or default) gives
